@@ -53,7 +53,7 @@ MANIFEST = {
         "design_ref": "DESIGN.md 3/C12",
     }
 }
-PROPS = ["Nstd.Callback.Props", "Nstd.Callback.PropsTie", "Nstd.Callback.PropsOrder"]
+PROPS = ["Nstd.Callback.Props", "Nstd.Callback.PropsTie", "Nstd.Callback.PropsTieRun", "Nstd.Callback.PropsOrder", "Nstd.Callback.PropsReuse"]
 DRIVER = "drv_callback"
 LEAN_TARGETS = PROPS + [DRIVER]
 GEN_BODY = C.LEAN / "Nstd/Generated/CallbackBody.lean"
@@ -298,6 +298,10 @@ def reference(hist):
             if ok:
                 table[(l, s, k)] = acts
             out.append("ok" if ok else "bad-op")
+            continue
+        if w == ["mfp"]:
+            # what the model assumes of MemberFuncPtr, checked by the harness on its own pointers
+            out.append("mfp ok sigs=%d slots=%d" % (NG, NS * NG))
             continue
         if len(w) == 2 and w[0] == "refargs":
             # reference parameters: every slot gets the caller's objects themselves (C++ rule, not in the model)
